@@ -30,6 +30,7 @@ CONSTANTS
   SubTargets = {"A", "B"}
   AutoVals = {TRUE}
   SubOneshot = {FALSE}
+  UdVals = {0}
   Senders = {"A"}
   QuitCodes = {1}
   ForeignOps = {}
